@@ -85,6 +85,9 @@ Apply(g, o) ==
       [] o.op = "pool" ->
             LET n2 == E([i \in 1..D |-> IF o.ceil THEN -((-g.n[i]) \div o.k) ELSE g.n[i] \div o.k]) IN
             Reframe(g, VConst(D, R(o.k - 1, 2)), VInt(n2), VScale(RI(o.k), g.h))
+      \* convolution of an IMAGE with a kernel of half width r[i] along axis i (grids themselves have no such method): with 'same'
+      \* padding the grid stays, with an explicit zero margin ("valid") r[i] samples are lost at both ends of axis i
+      [] o.op = "conv" -> IF o.valid THEN CropNum(g, o.r, o.r) ELSE g
 
 \* guard: the operation is within the range the property quantifies over for this grid
 Enabled(g, o) ==
@@ -102,6 +105,7 @@ Enabled(g, o) ==
       [] o.op = "narrow" -> o.dim < D /\ o.start + o.len <= g.n[o.dim + 1]
       [] o.op = "roi" -> Len(o.start) = D /\ \A i \in 1..D : o.n[i] >= 1
       [] o.op = "pool" -> \A i \in 1..D : g.n[i] >= o.k
+      [] o.op = "conv" -> Len(o.r) = D /\ \A i \in 1..D : g.n[i] >= 2 * o.r[i] + 2
 
 (* ---------------------- world-geometry post-conditions ---------------------- *)
 ResizeLike(g, g2, ac) ==
@@ -138,6 +142,11 @@ Post(g, o, g2) ==
                 /\ g2.n = [i \in 1..D |-> IF i = o.dim + 1 THEN o.len ELSE g.n[i]]
                 /\ CropLike(g, g2, E([i \in 1..D |-> IF i = o.dim + 1 THEN RI(o.start) ELSE Zero]))
          [] o.op = "roi" -> CropLike(g, g2, IF g2 = g THEN VZero(D) ELSE VInt(o.start))
+         [] o.op = "conv" ->
+                IF o.valid THEN /\ \A i \in 1..D : g2.n[i] = g.n[i] - 2 * o.r[i]
+                                /\ g2.c = g.c     \* symmetric: the centre stays
+                                /\ CropLike(g, g2, IF g2 = g THEN VZero(D) ELSE VInt(o.r))
+                ELSE g2 = g
          [] o.op = "pool" ->
                 /\ g2.R = g.R /\ g2.h = VScale(RI(o.k), g.h)
                 \* sample j of the pooled grid sits at the centre of the kernel window [k j, k j + k - 1]
@@ -162,8 +171,14 @@ Do(o) == /\ Enabled(cur, o)
          /\ hist' = Append(hist, o)
          /\ UNCHANGED base
 Start == base = NoG /\ \E b \in Bases : StartWith(b)
+\* (a convolution is explored as the first operation or after a pure crop, and nothing follows it: what padding contamination does to later
+\*  interpolating steps is not part of the lock-step law)
+LastOp == IF hist = <<>> THEN "" ELSE hist[Len(hist)].op
+TrueCrop == IF LastOp # "crop" THEN TRUE ELSE LET c == hist[Len(hist)] IN \A i \in 1..Len(c.lo) : c.lo[i] >= 0 /\ c.hi[i] >= 0   \* (negative margins pad)
+ConvAllowed(o) == IF o.op # "conv" THEN TRUE ELSE LastOp \in {"", "crop", "center_crop", "narrow"} /\ TrueCrop
 Step  == /\ base # NoG /\ Len(hist) < MaxDepth
-         /\ \E o \in OpsOf(GDim(cur)) : Do(o)
+         /\ LastOp # "conv"
+         /\ \E o \in OpsOf(GDim(cur)) : ConvAllowed(o) /\ Do(o)
 Next == Start \/ Step
 Spec == Init /\ [][Next]_vars
 
